@@ -13,7 +13,7 @@ CAP = 500
 @st.composite
 def history(draw, kinds=("post_fifo", "post_lifo", "next_rtc", "complete_circuit"),
             action_kinds=("post_fifo", "post_lifo"), max_ops=25, max_states=8, spy=None,
-            bulk=False):
+            bulk=False, pre=False):
   spec = draw(chartgen.chart_spec(max_states=max_states, max_sigs=3, spy=spy))
   spec["acts"] = draw(chartgen.actions_for(spec, kinds=list(action_kinds), min_sites=1))
   start = draw(st.integers(0, spec["n"] - 1))
@@ -30,6 +30,11 @@ def history(draw, kinds=("post_fifo", "post_lifo", "next_rtc", "complete_circuit
     else:
       ops.append([k])
   case = {"spec": spec, "start": start, "ops": ops}
+  if pre:
+    # operations made before the chart is started (posting/deferring to a not yet started chart)
+    pk = [k for k in ("post_fifo", "post_lifo", "defer") if k in kinds]
+    case["pre_ops"] = [[draw(st.sampled_from(pk)), draw(st.sampled_from(spec["sigs"]))]
+                       for _ in range(draw(st.integers(0, 3)))] if pk else []
   if bulk and draw(st.integers(0, 7)) == 0:
     # long circuits: hundreds of queued events whose handlers post follow-ups
     case["budget"] = draw(st.sampled_from([280, 400, 700]))
@@ -39,15 +44,32 @@ def history(draw, kinds=("post_fifo", "post_lifo", "next_rtc", "complete_circuit
   return case
 
 
+class BoundedModelDeque(ModelDeque):
+  """The model deque at capacity: a queued chart's queue is a bounded collections.deque, so a
+  post to a full queue drops the event at the OTHER end (used by the at-capacity cases of C15)."""
+
+  def post_fifo(self, x):
+    if len(self.q) >= self.cap:
+      self.q.pop(0)
+    self.q.append(x)
+    return True
+
+  def post_lifo(self, x):
+    if len(self.q) >= self.cap:
+      self.q.pop()
+    self.q.insert(0, x)
+    return True
+
+
 class QModel:
   """Model of a queued chart: reference chart model + bounded deque + defer list.
 
   Events are (id, sig).  Mirrors the handler-side actions in clause order."""
 
-  def __init__(self, spec, budget):
+  def __init__(self, spec, budget, bounded=False):
     self.spec = spec
     self.m = Model(spec)
-    self.d = ModelDeque(CAP)
+    self.d = BoundedModelDeque(CAP) if bounded else ModelDeque(CAP)
     self.budget = budget
     self.next_id = 0
     self.acts = spec.get("acts") or {}
@@ -236,7 +258,7 @@ class RealQueued:
     o.log = list(self.rt.log)
     o.actlog = list(self.rt.actlog)
     o.dispatched = [e.payload for e in self.steps]
-    o.state = self.chart.state_name
+    o.state = getattr(self.chart, "state_name", None)     # not set before start_at
     self.rt.clear()
     del self.steps[:]
 
